@@ -1,4 +1,5 @@
 """C01 - Served answers are exactly what the data file declares."""
+import os
 
 from props.corecase import file_to_coq, file_nontrivial, file_distribution, shrink_file
 
@@ -37,4 +38,10 @@ def case_class(c):
 
 
 def shrink_candidates(c):
+    if os.environ.get("VERIF_NO_SHRINK"):
+        return iter(())
+    return _shrink_candidates(c)
+
+
+def _shrink_candidates(c):
     return shrink_file(c)
